@@ -149,7 +149,10 @@ Qed.
 Lemma domain_ok_model cfg host : domain_ok cfg host (domain_attr (cookie_domain cfg host)) = true.
 Proof.
   unfold domain_ok, cookie_domain. destruct (c_cookie_domain cfg) as [|c0 cd] eqn:Ec.
-  - destruct (domain_attr _) as [d'|] eqn:Ed; [|reflexivity]. apply domain_attr_shape in Ed.
+  - destruct (domain_attr _) as [d'|] eqn:Ed.
+    2: { unfold domain_attr in Ed. destruct (match split_host_port host with Some h => h | None => host end) as [|c0 t0] eqn:E0;
+         [reflexivity|]. destruct (valid_cookie_domain (c0 :: t0)); [discriminate | reflexivity]. }
+    apply domain_attr_shape in Ed.
     destruct (split_host_port host) as [h|] eqn:Es.
     + apply split_host_port_shape in Es as [[port ->]|[rest ->]].
       * destruct Ed as [->| ->].
